@@ -196,8 +196,8 @@ def HeaderMatcher.match (m : HeaderMatcher) (md : MD) : Bool :=
   | .regex key re invert => onValue md key fun v => re.matches v != invert
   | .range key start stop invert => onValue md key fun v => rangeResult v start stop invert
   | .present key want =>
-    -- `vs, ok := valueFromMD(md, key); present := ok && len(vs) > 0` — `vs` is the JOINED string
-    (onValue md key fun vs => !vs.isEmpty) == want
+    -- `_, present := valueFromMD(md, key)` (after fix 8ad6d37; before it an empty joined value counted as absent)
+    (onValue md key fun _ => true) == want
   | .prefix key pat invert => onValue md key fun v => pat.isPrefixOf v != invert
   | .suffix key pat invert => onValue md key fun v => pat.isSuffixOf v != invert
   | .contains key pat invert => onValue md key fun v => hasInfix pat v != invert
